@@ -26,12 +26,12 @@ RULE = ("requests are drawn from VERIF_SEED: parameters on both sides of every b
         "Poisson means 1e-3..1e3, counts 0..500, binomial trials 0..170 (and up to 400), dof 0..400, "
         "chi-bar weight vectors, sorted argument grids per family; a case is non-trivial when the model answers ok/err and is "
         "counted once per distinct (op, outcome/branch, magnitude class of the parameters) key")
-CORR_ONLY = ["CDF_Poisson = sum of PMF_Poisson (goes through the numerical GammaQ): vs mpmath at 1e-12 (counts<100) / 1e-3",
+CORR_ONLY = ["CDF_Maxwell_Boltzmann: agreement of the series branch (x/a < 0.1) with the closed form at the switch point and monotonicity across it "
+             "(a statement about erf/exp: pairs 1e-8 apart straddling x/a = 0.1 at the rounding noise of the closed form)",
+             "CDF_Poisson = sum of PMF_Poisson (goes through the numerical GammaQ): vs mpmath at 1e-12 (counts<100) / 1e-3",
              "CDF = integral of the density for Gauss / chi-square / Maxwell-Boltzmann / exponential: mpmath.quad of the definition",
              "Inv_CDF_Poisson, Quantile_Gauss accuracy (1e-7 through Inv_GammaQ for every count; 1e-4 through Inv_Erf)",
-             "far tails; KDE tabulated values vs the definition; KDE normalisation through Interpolation::Integrate at 2.5e-5 (the library "
-             "renormalises with its adaptive Simpson rule at 1e-8 absolute on a C1 interpolant; worst observed 1.4e-6); KDE with a bandwidth "
-             "below the spacing of its 150-point table is excluded (not representable by the table)"]
+             "far tails; KDE tabulated values vs the definition; KDE normalisation through Interpolation::Integrate at 1e-12 (fix f8bedae)"]
 ASSUMPTIONS = ["exp/log/sqrt/erf/pow of libm approximate the real functions (parameters of the model)",
                "rounding slack (documented, minimal): PMF/CDF_Binomial get the denormal spacing 2^-1074 times the other factors as absolute "
                "slack when a factor p^x or (1-p)^(t-x) underflows to a denormal",
@@ -40,19 +40,9 @@ TRUSTED = ["mpmath 1.3 at 50 digits (exp, log, erf, erfinv, gamma, loggamma, gam
            "reference of the definitions; self-test in finalize"]
 
 EPSF = 2.0 ** -53
-# OPEN DEFECTS of /repo with a repair proposed but not yet applied: while True the clause keeps its former slack / the generator
-# its former filter, and the entry is listed in the evidence (ASSUMPTIONS); set to False once the patch is in /repo.
-_FIXED = set(os.environ.get("LP_ASSUME_FIXED", "").split(","))   # rehearsal of a proposed patch: LP_ASSUME_FIXED=C07-1,C07-2,...
-PENDING_MB_SMALL = "C07-1" not in _FIXED     # defect 7: CDF_Maxwell_Boltzmann negative / no digits for x/a < 1e-7 (fixprop-C07-1)
-PENDING_KDE_NARROW = "C07-2" not in _FIXED   # defect 4: Perform_KDE not normalised for bandwidth < ~2.7 table spacings (fixprop-C07-2)
-PENDING_LIK_000 = "C07-3" not in _FIXED      # defect 15: Likelihood_Poisson(0,0,0) = NaN while PMF_Poisson(0,0) = 1 (fixprop-C07-3)
-ASSUMPTIONS += [t for f, t in (
-    (PENDING_MB_SMALL, "OPEN DEFECT 7 (repair proposed, fixprop-C07-1): CDF_Maxwell_Boltzmann may be negative by at most 8 ulp of its erf term and is "
-                       "compared at the rounding noise of the cancelling closed form for x/a < 0.1; after the repair: >= 0 exactly, 16 eps relative"),
-    (PENDING_KDE_NARROW, "OPEN DEFECT 4 (repair proposed, fixprop-C07-2): KDE with a bandwidth below the spacing of its 150-point table is excluded and the "
-                         "normalisation is judged at 2.5e-5; after the repair: every bandwidth whose table is not identically zero, 1e-12"),
-    (PENDING_LIK_000, "OPEN DEFECT 15 (repair proposed, fixprop-C07-3): (Log_)Likelihood_Poisson(_Binned) with s+b = 0 and no observed events (nan) is not "
-                      "generated; after the repair it is, against PMF_Poisson(0,0) = 1")) if f]
+ASSUMPTIONS += ["KDE with a bandwidth below 1/64 of the spacing of its 150-point table is excluded: every tabulated value can underflow to zero and "
+                "no table can be normalised then (the generator goes down to 0.047 table spacings)",
+                "Likelihood_Poisson with s+b = 0 and n > 0 (log-likelihood -inf, likelihood 0 = PMF_Poisson(0,n)) is not compared with the model (outside exact arithmetic)"]
 K_MB = 64          # ulps of the two cancelling terms of CDF_Maxwell_Boltzmann (calibrated: worst observed on the unchanged tree x16)
 K_ERF = 4          # ulps of a double erf value near +-1 that the root of erf(x) - y cannot resolve
 K_EXP = 64         # relative K*eps*(size of the exponent) for exp-type formulas
@@ -212,6 +202,26 @@ def generate(tier, seed, ctx):
             R.append("c07.gauss_q %s %s %s" % (hx(p), hx(mu), hx(s)))
     for p in (0.0, 1.0, -0.5, 1.5, 0.5, -1e-300):
         R.append("c07.gauss_q %s %s %s" % (hx(p), hx(1.0), hx(2.0)))
+    # parameters outside their range are rejected with a diagnostic (fix d65f15f): empty uniform domain, sigma <= 0
+    # (Quantile_Gauss: sigma < 0), negative degrees of freedom, negative expectations of the likelihoods
+    for lo, hi in ((1.0, 1.0), (2.0, 1.0), (0.0, -0.0), (1e300, -1e300), (math.nextafter(1.0, 2), 1.0)):
+        for x in (lo, hi, 0.5 * (lo + hi), lo - 1, hi + 1):
+            R.append("c07.unif_pdf %s %s %s" % (hx(x), hx(lo), hx(hi))); R.append("c07.unif_cdf %s %s %s" % (hx(x), hx(lo), hx(hi)))
+    for sg in (0.0, -0.0, -1.0, -1e-300, -5e-324, -1e300):
+        R.append("c07.gauss_pdf %s %s %s" % (hx(0.3), hx(0.0), hx(sg))); R.append("c07.gauss_cdf %s %s %s" % (hx(0.3), hx(0.0), hx(sg)))
+        R.append("c07.gauss2d %s %s %s %s %s %s" % (hx(0.1), hx(0.2), hx(0.0), hx(0.0), hx(sg), hx(1.0)))
+        R.append("c07.gauss2d %s %s %s %s %s %s" % (hx(0.1), hx(0.2), hx(0.0), hx(0.0), hx(1.0), hx(sg)))
+        if sg < 0:
+            R.append("c07.gauss_q %s %s %s" % (hx(0.3), hx(1.0), hx(sg)))
+    for dof in (-1.0, -0.5, -1e-300, -5e-324, -400.0):
+        for x in (-1.0, 0.0, 1.0):
+            R.append("c07.chi_pdf %s %s" % (hx(x), hx(dof))); R.append("c07.chi_cdf %s %s" % (hx(x), hx(dof)))
+    for sg, bg in ((-1.0, 2.0), (2.0, -1.0), (-1e-300, 0.0), (0.0, -5e-324), (-1.0, -1.0), (-2.0, 3.0)):
+        for nn in (0, 3):
+            R.append("c07.lik %s %d %s" % (hx(sg), nn, hx(bg))); R.append("c07.loglik %s %d %s" % (hx(sg), nn, hx(bg)))
+        for op in ("lik_b", "loglik_b"):
+            R.append("c07.%s %s %s %s" % (op, lst([1.0, sg]), ilst([1, 0]), lst([0.5, bg])))
+    R.append("c07.lik_b %s %s %s" % (lst([1.0, -2.0]), ilst([1, 0]), lst([])))
     # ---- binomial ----
     for _ in range(250 * n1):
         c = rng.random()
@@ -347,7 +357,7 @@ def generate(tier, seed, ctx):
                 r2 = "c07.%s %s %s" % (op, hx(c * (1 + 5e-9) * sc), hx(sc))
                 R.append(r1); R.append(r2)
                 ctx["pairs"].append((op, c, sc, r1, r2))
-    if not PENDING_MB_SMALL:      # x/a down to 1e-160: the series branch (non-negative, monotone, relative accuracy)
+    if True:                      # x/a down to 1e-160: the series branch (non-negative, monotone, relative accuracy)
         for _ in range(150 * n1):
             sc = 10.0 ** rng.uniform(-3, 3); t = 10.0 ** rng.uniform(-160, -1)
             R.append("c07.mb_cdf %s %s" % (hx(sc * t), hx(sc)))
@@ -386,7 +396,7 @@ def generate(tier, seed, ctx):
                 b = b + [1.0] if b else [1.0] * (m + 1)
         for op in ("lik_b", "loglik_b"):
             R.append("c07.%s %s %s %s" % (op, lst(s), ilst(n), lst(b)))
-    if not PENDING_LIK_000:        # no expected and no observed events: the mass function is 1
+    if True:                       # no expected and no observed events: the mass function is 1
         for op in ("lik", "loglik"):
             R.append("c07.%s %s 0 %s" % (op, hx(0.0), hx(0.0)))
         for j in range(10 * n1):
@@ -417,7 +427,7 @@ def generate(tier, seed, ctx):
         vals = sorted(set(xmin + width * rng.random() ** rng.choice([1, 2]) for _ in range(N)))
         rng.shuffle(vals)
         w = [1.0] * len(vals) if rng.random() < 0.5 else [rng.uniform(0.1, 3) for _ in vals]
-        bw = 0.0 if (rng.random() < 0.5 and len(vals) > 1) else width * 10.0 ** rng.uniform(-1.5 if PENDING_KDE_NARROW else -3.5, -0.3)
+        bw = 0.0 if (rng.random() < 0.5 and len(vals) > 1) else width * 10.0 ** rng.uniform(-3.5, -0.3)
         R.append("c07.kde %d %s %s %s %s" % (len(vals), " ".join(hx(v) + " " + hx(ww) for v, ww in zip(vals, w)), hx(xmin), hx(xmax), hx(bw)))
     # ---- two-dimensional normal density (coverage extension) ----
     rng2 = random.Random(seed * 15485863 + 707)
@@ -664,18 +674,11 @@ def _check(op, a, ti, mt, ctx):
         else:
             _val(ctx, out, name, v, ref, 8 * EPSF)
             t = float(X / Mm) if x >= 0 else 0.0
-            if nm == "mb_cdf" and not PENDING_MB_SMALL and 0 < t < 0.1 and ref > mpf(1e-290):
+            if nm == "mb_cdf" and 0 < t < 0.1 and ref > mpf(1e-290):          # the series branch (fix a8d8068)
                 if not ratio(ctx, "CDF_Maxwell_Boltzmann small argument, relative", abs(mpf(v) - ref), 16 * EPSF * ref):
                     out.append(fail("prop", "CDF_Maxwell_Boltzmann differs from its definition beyond 16 eps relative (small x/a)",
                                     "x/a=%r got %r, definition %s" % (t, v, mpmath.nstr(ref, 17))))
-            elif nm == "mb_cdf" and 1e-5 <= t <= 1e-1:
-                # rounding noise of erf(t/sqrt2) - sqrt(2/pi) t exp(-t^2/2): a few ulp of the two terms (~0.8 t), relative ~ eps/t^2
-                if not ratio(ctx, "CDF_Maxwell_Boltzmann small argument, at the noise of its formula", abs(mpf(v) - ref), K_MB * EPSF * 0.8 * t):
-                    out.append(fail("prop", "CDF_Maxwell_Boltzmann differs from its definition beyond the rounding of its formula (small x/a)",
-                                    "x/a=%r got %r, definition %s (relative error %.3g)" % (t, v, mpmath.nstr(ref, 17), float(abs(mpf(v) - ref) / ref))))
-        # OPEN DEFECT 7 (PENDING_MB_SMALL): the closed form cancels and goes negative for x/a < 1.5e-8
-        lowest = -8 * EPSF * float(abs(mpmath.erf(X / (mpmath.sqrt(2) * Mm)))) if (nm == "mb_cdf" and PENDING_MB_SMALL) else 0.0
-        if v < lowest or (nm.endswith("cdf") and v > 1) or math.isnan(v):
+        if v < 0 or (nm.endswith("cdf") and v > 1) or math.isnan(v):
             out.append(fail("prop", name + " negative or above one", repr(v)))
     elif op in ("c07.lik", "c07.loglik"):
         s, n, b = fl(a[0]), int(a[1]), fl(a[2]); v, pmf = fl(ti[0]), fl(ti[1])
@@ -737,15 +740,14 @@ def _check(op, a, ti, mt, ctx):
             avg = sum(w * v for v, w in d) / wsum
             var = sum(w * (v - avg) ** 2 / wsum for v, w in d)
             bw = math.sqrt(var) * (4.0 / 3.0 / N) ** 0.2
-        if (bw < (xmax - xmin) / 149) if PENDING_KDE_NARROW else (not any(v > 0 for v in vals) and not any(math.isnan(v) for v in vals[:1]) and bw < (xmax - xmin) / 149 / 30):
-            # stated exclusion: a kernel narrower than the spacing of the 150-point table cannot be represented by the table
-            # (after fixprop-C07-2 only when every tabulated value underflows to zero)
+        if bw < (xmax - xmin) / 149 / 64:
+            # stated exclusion: every tabulated value of such a narrow kernel can underflow to zero (nothing to normalise)
             ctx["excused"] += 1
-            bump(ctx, "KDE: bandwidth below the table spacing (excluded)")
+            bump(ctx, "KDE: bandwidth below 1/64 table spacing (excluded)")
             return out
         if any(math.isnan(v) or v < 0 for v in vals):
             out.append(fail("prop", "KDE takes a negative (or NaN) value inside its window", "min %r" % min(vals)))
-        if math.isnan(integ) or not ratio(ctx, "KDE integrates to one (Interpolation::Integrate)", abs(integ - 1), 2.5e-5 if PENDING_KDE_NARROW else 1e-12):
+        if math.isnan(integ) or not ratio(ctx, "KDE integrates to one (Interpolation::Integrate)", abs(integ - 1), 1e-12):
             out.append(fail("prop", "KDE does not integrate to one over its window", "integral %r" % integ))
         # tabulated values against the definition, up to the common renormalisation factor
         if bw > 0:
@@ -778,7 +780,7 @@ def finalize(ctx, exe):
         if v1 is None or v2 is None or tag(v1) != "ok" or tag(v2) != "ok":
             continue
         v1, v2 = fl(toks(v1)[0]), fl(toks(v2)[0])
-        noise = K_MB * EPSF * 0.8 * c if (op == "mb_cdf" and (PENDING_MB_SMALL or c >= 0.1)) else 0.0
+        noise = K_MB * EPSF * 0.8 * c if (op == "mb_cdf" and c >= 0.1) else 0.0    # closed form at and above the switch x/a = 0.1
         if not ratio(ctx, "CDF non-decreasing across a pair 1e-8 apart (%s)" % op, max(0.0, v1 - v2), noise):
             out.append(dict(fail("prop", "CDF decreases between two close arguments (%s)" % op,
                                  "x/scale=%r: %r -> %r (down by %.3g relative)" % (c, v1, v2, (v1 - v2) / max(v1, 1e-300))), req=r2))
